@@ -1,7 +1,7 @@
 (* C06 correspondence: observed behaviour of the real vhost.Routers / HTTPReverseProxy / Muxers and of
    HTTPReverseProxy.ServeHTTP with its backend connection pool, against Model/Router.v and
    Model/HttpPool.v; and the property monitors (specification only: Model/RouteSpec.v). *)
-From FRP Require Export Corr.Common Model.Router Model.RouteSpec Model.HttpPool.
+From FRP Require Export Corr.Common Model.Router Model.RouteSpec Model.HttpPool Model.RouterSched gen.GenC06Route.
 Open Scope Z_scope.
 
 Inductive c06_op :=
@@ -15,6 +15,9 @@ Inductive c06_op :=
 Inductive case :=
 | CRouter (kind : Z) (ops : list c06_op)      (* 0 Routers+HTTPReverseProxy, 2 HTTPSMuxer, 3 HTTPConnectTCPMuxer *)
 | CCanon (h : bytes) (res : option bytes)     (* httppkg.CanonicalHost *)
+| CAddRace (ops : list (rt_op Z)) (results : list bool) (gets : list (bytes * bytes * bytes * option Z))
+    (* goroutines released at the same instant, one Routers.Add / Del each, on fresh triples:
+       results[i] = call i returned nil; afterwards raw Routers.Get observations *)
 | CHttp (ops : list (hp_op * hp_out)).        (* ServeHTTP histories *)
 
 Definition optZ_eqb (a b : option Z) : bool :=
@@ -29,7 +32,17 @@ Definition req_host (canon : bool) (h : bytes) : bytes := if canon then rt_canon
 (* model state, specification state, op index -> reason code (0 = all agree).
    codes: 10*i + reason; reason 1 Add outcome, 2 raw Get, 3 getVhost result differ from the model;
    5 Add outcome, 6 selected route differ from the specification (the property itself) *)
-Fixpoint check_router (s : rstate Z) (spec : list (route Z)) (i : Z) (ops : list c06_op) : Z :=
+(* the walk of a case kind, with the split call and loop bound the translator read from today's source
+   (kinds 2, 3: Muxer.getListener; else HTTPReverseProxy.getVhost) *)
+Definition walk_other : rt_walk_src := mkWalkSrc RtSplitOther 3 [] [].
+Definition src_walk (kind : Z) : rt_walk_src :=
+  match rt_site_lookup (if (kind =? 2) || (kind =? 3) then "Muxer.getListener"%string else "HTTPReverseProxy.getVhost"%string)
+                       c06_walk_sites with
+  | Some w => w
+  | None => walk_other
+  end.
+
+Fixpoint check_router (w : rt_walk_src) (s : rstate Z) (spec : list (route Z)) (i : Z) (ops : list c06_op) : Z :=
   match ops with
   | [] => 0
   | o :: r =>
@@ -39,16 +52,16 @@ Fixpoint check_router (s : rstate Z) (spec : list (route Z)) (i : Z) (ops : list
           let sp := rs_add spec d l u pay in
           if negb (Bool.eqb (match m with Some _ => true | None => false end) ok) then 10 * i + 1
           else if negb (Bool.eqb (match sp with Some _ => true | None => false end) ok) then 10 * i + 5
-          else check_router (match m with Some s' => s' | None => s end)
+          else check_router w (match m with Some s' => s' | None => s end)
                             (match sp with Some x => x | None => spec end) (i + 1) r
-      | ODel d l u => check_router (rt_del s d l u) (rs_del spec d l u) (i + 1) r
+      | ODel d l u => check_router w (rt_del s d l u) (rs_del spec d l u) (i + 1) r
       | OGet h p u res =>
-          if optZ_eqb (pay_of (rt_get s h p u)) res then check_router s spec (i + 1) r else 10 * i + 2
+          if optZ_eqb (pay_of (rt_get s h p u)) res then check_router w s spec (i + 1) r else 10 * i + 2
       | OVhost canon h p u res =>
           let h' := req_host canon h in
-          if negb (optZ_eqb (pay_of (rt_get_vhost s h' p u)) res) then 10 * i + 3
+          if negb (optZ_eqb (pay_of (rt_get_vhost_g w s h' p u)) res) then 10 * i + 3
           else if negb (optZ_eqb (pay_of (rs_best_match spec h' p u)) res) then 10 * i + 6
-          else check_router s spec (i + 1) r
+          else check_router w s spec (i + 1) r
       end
   end.
 
@@ -104,9 +117,67 @@ Fixpoint check_http (with_monitor : bool) (st : hp_state) (spec : list (route Z)
       end
   end.
 
+(* ---------- concurrent registrations: is there an order of the calls that explains the answers? ---------- *)
+Fixpoint ra_insert_all {A} (x : A) (l : list A) : list (list A) :=
+  match l with
+  | [] => [[x]]
+  | y :: r => (x :: l) :: map (cons y) (ra_insert_all x r)
+  end.
+Fixpoint ra_perms {A} (l : list A) : list (list A) :=
+  match l with
+  | [] => [[]]
+  | x :: r => flat_map (ra_insert_all x) (ra_perms r)
+  end.
+Fixpoint ra_number {A} (i : nat) (l : list A) : list (nat * A) :=
+  match l with [] => [] | x :: r => (i, x) :: ra_number (S i) r end.
+
+(* run the numbered calls one after the other on the table model; false as soon as an answer differs *)
+Fixpoint race_seq_ok (s : rstate Z) (order : list (nat * rt_op Z)) (results : list bool) : option (rstate Z) :=
+  match order with
+  | [] => Some s
+  | (i, o) :: r =>
+      match o with
+      | RAdd d l u p =>
+          match rt_add s d l u p, nth_error results i with
+          | Some s', Some true => race_seq_ok s' r results
+          | None, Some false => race_seq_ok s r results
+          | _, _ => None
+          end
+      | RDel d l u => match nth_error results i with Some true => race_seq_ok (rt_del s d l u) r results | _ => None end
+      end
+  end.
+Fixpoint race_seq_ok_spec (spec : list (route Z)) (order : list (nat * rt_op Z)) (results : list bool) : bool :=
+  match order with
+  | [] => true
+  | (i, o) :: r =>
+      match o with
+      | RAdd d l u p =>
+          match rs_add spec d l u p, nth_error results i with
+          | Some sp, Some true => race_seq_ok_spec sp r results
+          | None, Some false => race_seq_ok_spec spec r results
+          | _, _ => false
+          end
+      | RDel d l u => match nth_error results i with Some true => race_seq_ok_spec (rs_del spec d l u) r results | _ => false end
+      end
+  end.
+
+Definition race_gets_ok (s : rstate Z) (gets : list (bytes * bytes * bytes * option Z)) : bool :=
+  forallb (fun g => match g with (h, p, u, res) => optZ_eqb (pay_of (rt_get s h p u)) res end) gets.
+
+(* 0: some order of the calls explains all answers and the table afterwards; 8: none does
+   (e.g. two registrations of one triple both accepted); 9: arity *)
+Definition check_race (ops : list (rt_op Z)) (results : list bool) (gets : list (bytes * bytes * bytes * option Z)) : Z :=
+  if negb (Nat.eqb (length ops) (length results)) || (5 <? Z.of_nat (length ops)) then 9
+  else if existsb (fun order => match race_seq_ok rt_empty order results with
+                                | Some s => race_gets_ok s gets
+                                | None => false
+                                end) (ra_perms (ra_number 0 ops))
+       then 0 else 8.
+
 Definition check_case (c : case) : Z :=
   match c with
-  | CRouter _ ops => check_router rt_empty [] 0 ops
+  | CAddRace ops results gets => check_race ops results gets
+  | CRouter k ops => check_router (src_walk k) rt_empty [] 0 ops
   | CCanon h res => if optB_eqb (rt_canonical_host h) res then 0 else 4
   | CHttp ops => check_http true hp_init [] 0 ops
   end.
@@ -169,6 +240,16 @@ Definition C06_holds (c : case) : bool :=
   | CRouter _ ops => C06_holds_router [] ops
   | CCanon _ _ => true
   | CHttp ops => C06_holds_http [] ops
+  | CAddRace ops results _ =>
+      Nat.eqb (length ops) (length results) &&
+      existsb (fun order => race_seq_ok_spec [] order results) (ra_perms (ra_number 0 ops))
+  end.
+
+(* racing rounds in which several goroutines registered the same triple *)
+Definition race_counter (c : case) : Z :=
+  match c with
+  | CAddRace ops results _ => Z.of_nat (length (filter (fun b : bool => negb b) results))
+  | _ => 0
   end.
 
 (* ---------- counters: which model branches the cases reached ---------- *)
@@ -193,7 +274,10 @@ Fixpoint count_router (what : Z) (s : rstate Z) (ops : list c06_op) : Z :=
            (if (what =? 4) && negb (bytes_eqb (rt_dom x) (lower h')) && bytes_eqb (rt_dom x) rt_star then 1 else 0) +
            (if (what =? 5) && negb (bytes_eqb u []) && bytes_eqb (rt_user x) u then 1 else 0) +
            (if (what =? 6) && negb (bytes_eqb u []) && bytes_eqb (rt_user x) [] then 1 else 0) +
-           (if (what =? 7) && (1 <? blen (rt_loc x)) then 1 else 0)
+           (if (what =? 7) && (1 <? blen (rt_loc x)) then 1 else 0) +
+           (* a host of 9 or more labels served by a wildcard pattern of at most 3 labels *)
+           (if (what =? 8) && (9 <=? Z.of_nat (length (rt_split h'))) && negb (bytes_eqb (rt_dom x) (lower h')) &&
+               negb (bytes_eqb (rt_dom x) rt_star) && (Z.of_nat (length (rt_split (rt_dom x))) <=? 3) then 1 else 0)
        end) + count_router what s r
   end.
 Definition router_counter (what : Z) (c : case) : Z :=
@@ -205,10 +289,11 @@ Definition http_counter (what : Z) (c : case) : Z :=
   | CHttp ops =>
       fold_left (fun a (oo : hp_op * hp_out) =>
         a + match oo with
-            | (HBegin _ _ proto _ _ _ dialed, out) =>
+            | (HBegin _ _ proto host _ _ dialed, out) =>
                 (if (what =? 0) && negb dialed then 1 else 0) +
                 (if (what =? 1) && hp_out_eqb out HNotFound then 1 else 0) +
-                (if (what =? 2) && (proto =? 1) then 1 else 0)
+                (if (what =? 2) && (proto =? 1) then 1 else 0) +
+                (if (what =? 6) && (9 <=? Z.of_nat (length (rt_split host))) && negb (hp_out_eqb out HNotFound) then 1 else 0)
             | (HRegister _ _ _ _, out) => if (what =? 3) && hp_out_eqb out HRegConflict then 1 else 0
             | (HConnect _ _, out) => if (what =? 4) && negb (hp_out_eqb out HNotFound) then 1 else 0
             | (HBeginRaced _ _ _ _ _ _ _ _, _) => if what =? 5 then 1 else 0
